@@ -707,10 +707,7 @@ class MacroProgram(ElementProgram):
             return nodes.Text(node.replace('$$', '$'))
 
         expr = nodes.Substitution(node, ())
-        # Character data is literal: there are no entities to decode
-        return nodes.Interpolation(
-            expr, True, False, decode_htmlentities=False
-        )
+        return nodes.Interpolation(expr, True, False)
 
     def visit_comment(self, node):
         if node.startswith('<!--!'):
